@@ -131,6 +131,29 @@ def klass(b, fmt):
     return s + ("inf" if not fpx.is_finite(b, fmt) else "fin")
 
 
+def region(b, fmt):
+    """coarse magnitude class of an input component (used in cause signatures)"""
+    p, ew, w = fpx.FMT[fmt]
+    m = b & ((1 << (w - 1)) - 1)
+    e = m >> (p - 1)
+    bias = (1 << (ew - 1)) - 1
+    if m == 0:
+        return "zero"
+    if e == (1 << ew) - 1:
+        return "inf"
+    if e == 0:
+        return "subnormal"
+    if 2 * (e - bias) < -(bias - 1):
+        return "square-underflows"  # its square is below the smallest normal
+    if m == bias << (p - 1):
+        return "one"
+    if e < bias:
+        return "lt1"
+    if e - bias >= bias // 2:
+        return "square-overflows"
+    return "gt1"
+
+
 def work(task):
     """One (name, dtype): returns stats, violations and Lean lines."""
     import random
@@ -174,7 +197,7 @@ def work(task):
             for comp, (g, r_) in enumerate(zip(got, nat)):
                 kg, kr = klass(g, fmt), klass(r_, fmt)
                 if kg == "nan" and kr != "nan":
-                    out["violations"].append(dict(sig=f"{name}:{dtype}:spurious-nan-at-infinite-input", comp=comp, x=xb, y=yb, got=list(got), native=nat))
+                    out["violations"].append(dict(sig=f"{name}:{dtype}:spurious-nan-at-infinite-input:{'re' if comp == 0 else 'im'}:x={klass(xb, fmt)},y={klass(yb, fmt)}", comp=comp, x=xb, y=yb, got=list(got), native=nat))
             out["counts"]["infinite-input"] = out["counts"].get("infinite-input", 0) + 1
             continue
         ref = mpref.ref_complex(name, fmt, xb, yb)
@@ -196,7 +219,14 @@ def work(task):
                     kind = "wrong-sign-or-magnitude"
                 else:
                     kind = "more-than-16-ulp"
-                out["violations"].append(dict(sig=f"{name}:{dtype}:{kind}", comp=comp, x=xb, y=yb, got=list(got), ref=[sorted(map(str, a)) for a in ref], ulp=d if d < (1 << 61) else "nan/inf"))
+                rx, ry = region(xb, fmt), region(yb, fmt)
+                tiny = ("subnormal", "square-underflows")
+                if (rx == "one" and ry in tiny) or (ry == "one" and rx in tiny):
+                    # one cause, many symptoms (0 instead of ~sqrt(2|y|), log(0) = -inf, 1/0 = inf, lost digits)
+                    sig = f"{name}:{dtype}:unit-component-with-other-component-whose-square-underflows"
+                else:
+                    sig = f"{name}:{dtype}:{kind}:{'re' if comp == 0 else 'im'}:|x|={rx},|y|={ry}"
+                out["violations"].append(dict(sig=sig, kind=kind, comp=comp, x=xb, y=yb, got=list(got), ref=[sorted(map(str, a)) for a in ref], ulp=d if d < (1 << 61) else "nan/inf"))
         worst = max(worst, dmax if dmax < (1 << 61) else 0)
         if stream in rate:
             rate[stream][0] += 1
